@@ -421,3 +421,9 @@ def run(ctx):
                     ctx.ob("C02.prefix-agreement", ok, "query text is sliced at [%s..] on a path where the matched prefix is %r" % (k, succeeded[-1] if succeeded else None),
                            fn=fr.path, construct="prefix-slice", callee="index", where=fr.where(bb), key_extra={"k": k, "prefix": repr(succeeded[-1]) if succeeded else None})
     ctx.floor("C02.prefix-agreement", "prefix-dependent slices of the query text (per matched prefix)", n_sl, 4)
+
+    # what the shim is handed is what the reader reassembled: the inbound reassembly clauses (C01's rules: window
+    # invariant, parse-before-wait, short-is-not-error, framing constants) are part of `verbatim` / `exactly what the client sent`
+    import rules.C01 as C01
+    C01.run(ctx, configs=["tls"])
+
